@@ -209,50 +209,61 @@ Fixpoint schunks (f : nat) (mt : N) (b : list N) : option (list N * list N) :=
       end
   end.
 
+Section SpecBody.
+  Variable f' : nat.
+  Variable self : list N -> option (sdata * list N).
+  Variable sn : N -> list N -> option (list sdata * list N).
+  Variable su : list N -> option (list sdata * list N).
+  Variable pn : N -> list N -> option (list (sdata * sdata) * list N).
+  Variable pu : list N -> option (list (sdata * sdata) * list N).
+
+  Definition spec_body (ib : N) (b1 : list N) : option (sdata * list N) :=
+    let mt := ib / 32 in
+    let ai := ib mod 32 in
+    if (28 <=? ai) && (ai <=? 30) then None
+    else if mt =? 0 then match sarg ai b1 with Some (n, b2) => Some (DUint n, b2) | None => None end
+    else if mt =? 1 then match sarg ai b1 with Some (n, b2) => Some (DNint n, b2) | None => None end
+    else if (mt =? 2) || (mt =? 3) then
+      match (if ai =? 31 then schunks f' mt b1
+             else match sarg ai b1 with Some (n, b2) => stake n b2 | None => None end) with
+      | Some (s, b3) => Some (if mt =? 2 then DBytes s else DText s, b3)
+      | None => None
+      end
+    else if mt =? 4 then
+      if ai =? 31 then match su b1 with Some (l, b2) => Some (DArr l, b2) | None => None end
+      else match sarg ai b1 with
+           | Some (n, b2) => match sn n b2 with Some (l, b3) => Some (DArr l, b3) | None => None end
+           | None => None
+           end
+    else if mt =? 5 then
+      if ai =? 31 then match pu b1 with Some (l, b2) => Some (DMap l, b2) | None => None end
+      else match sarg ai b1 with
+           | Some (n, b2) => match pn n b2 with Some (l, b3) => Some (DMap l, b3) | None => None end
+           | None => None
+           end
+    else if mt =? 6 then
+      if ai =? 31 then None
+      else match sarg ai b1 with
+           | Some (t, b2) => match self b2 with Some (v, b3) => Some (DTag t v, b3) | None => None end
+           | None => None
+           end
+    else
+      if ai <? 24 then Some (DSimple ai, b1)
+      else if ai =? 24 then
+        match b1 with v :: b2 => if v <? 32 then None else Some (DSimple v, b2) | [] => None end
+      else if ai =? 25 then match stake 2 b1 with Some (x, b2) => Some (DFloat 16 (sget x), b2) | None => None end
+      else if ai =? 26 then match stake 4 b1 with Some (x, b2) => Some (DFloat 32 (sget x), b2) | None => None end
+      else if ai =? 27 then match stake 8 b1 with Some (x, b2) => Some (DFloat 64 (sget x), b2) | None => None end
+      else None.                (* a break outside an indefinite-length item *)
+End SpecBody.
+
 Fixpoint spec_dec (f : nat) (b : list N) {struct f} : option (sdata * list N) :=
   match f with
   | O => None
   | S f' =>
       match b with
       | [] => None
-      | ib :: b1 =>
-          let mt := ib / 32 in
-          let ai := ib mod 32 in
-          if (28 <=? ai) && (ai <=? 30) then None
-          else if mt =? 0 then match sarg ai b1 with Some (n, b2) => Some (DUint n, b2) | None => None end
-          else if mt =? 1 then match sarg ai b1 with Some (n, b2) => Some (DNint n, b2) | None => None end
-          else if (mt =? 2) || (mt =? 3) then
-            match (if ai =? 31 then schunks f' mt b1
-                   else match sarg ai b1 with Some (n, b2) => stake n b2 | None => None end) with
-            | Some (s, b3) => Some (if mt =? 2 then DBytes s else DText s, b3)
-            | None => None
-            end
-          else if mt =? 4 then
-            if ai =? 31 then match spec_until f' b1 with Some (l, b2) => Some (DArr l, b2) | None => None end
-            else match sarg ai b1 with
-                 | Some (n, b2) => match spec_n f' n b2 with Some (l, b3) => Some (DArr l, b3) | None => None end
-                 | None => None
-                 end
-          else if mt =? 5 then
-            if ai =? 31 then match spec_pairs_until f' b1 with Some (l, b2) => Some (DMap l, b2) | None => None end
-            else match sarg ai b1 with
-                 | Some (n, b2) => match spec_pairs_n f' n b2 with Some (l, b3) => Some (DMap l, b3) | None => None end
-                 | None => None
-                 end
-          else if mt =? 6 then
-            if ai =? 31 then None
-            else match sarg ai b1 with
-                 | Some (t, b2) => match spec_dec f' b2 with Some (v, b3) => Some (DTag t v, b3) | None => None end
-                 | None => None
-                 end
-          else
-            if ai <? 24 then Some (DSimple ai, b1)
-            else if ai =? 24 then
-              match b1 with v :: b2 => if v <? 32 then None else Some (DSimple v, b2) | [] => None end
-            else if ai =? 25 then match stake 2 b1 with Some (x, b2) => Some (DFloat 16 (sget x), b2) | None => None end
-            else if ai =? 26 then match stake 4 b1 with Some (x, b2) => Some (DFloat 32 (sget x), b2) | None => None end
-            else if ai =? 27 then match stake 8 b1 with Some (x, b2) => Some (DFloat 64 (sget x), b2) | None => None end
-            else None                (* a break outside an indefinite-length item *)
+      | ib :: b1 => spec_body f' (spec_dec f') (spec_n f') (spec_until f') (spec_pairs_n f') (spec_pairs_until f') ib b1
       end
   end
 with spec_n (f : nat) (n : N) (b : list N) {struct f} : option (list sdata * list N) :=
